@@ -456,6 +456,42 @@ example (h : sizeScaledInIntegers = true) :
   rw [e1, e2, a, b, v1, v2]
   exact ⟨rfl, rfl⟩
 
+/-! ### formatting: which unit is chosen when none is fixed -/
+
+/-- `q` divided `j` times by the divider -/
+def divIter (d : Rat) : Nat → Rat → Rat
+  | 0, q => q
+  | j + 1, q => divIter d j (q / d)
+
+/-- **the auto-scaling loop** (no fixed unit): it returns the size divided `j` times by the base (1000 for decimal
+    units, 1024 otherwise) where `j` is the number of the chosen unit; every division happened because the value
+    was still at least the base, and — unless all twelve steps were used — the loop stopped because the value
+    shown is below the base.  So the unit is the largest one not exceeding the size, in the specifier's base. -/
+theorem autoScale_spec (d : Rat) : ∀ (f : Nat) (q : Rat) (i : Nat),
+    ∃ j, j ≤ f ∧ autoScale d f q i = (divIter d j q, i + j) ∧
+      (∀ k, k < j → ratAbs (divIter d k q) ≥ d) ∧ (j < f → ¬ ratAbs (divIter d j q) ≥ d)
+  | 0, q, i => ⟨0, Nat.le_refl _, rfl, fun k hk => absurd hk (Nat.not_lt_zero k), fun h => absurd h (Nat.lt_irrefl 0)⟩
+  | f + 1, q, i => by
+    by_cases hge : ratAbs q ≥ d
+    · obtain ⟨j, hj, heq, hall, hstop⟩ := autoScale_spec d f (q / d) (i + 1)
+      refine ⟨j + 1, Nat.succ_le_succ hj, ?_, ?_, ?_⟩
+      · simp only [autoScale, hge, if_true, divIter]
+        rw [heq]
+        have : i + 1 + j = i + (j + 1) := by omega
+        rw [this]
+      · intro k hk
+        cases k with
+        | zero => exact hge
+        | succ k => exact hall k (by omega)
+      · intro hlt
+        exact hstop (by omega)
+    · refine ⟨0, Nat.zero_le _, ?_, fun k hk => absurd hk (Nat.not_lt_zero k), fun _ => hge⟩
+      simp only [autoScale, hge, if_false, divIter, Nat.add_zero]
+
+/-- bytes: a size below the base is shown in bytes (unit number 0), undivided -/
+theorem autoScale_small (d : Rat) (f : Nat) (q : Rat) (h : ¬ ratAbs q ≥ d) : autoScale d (f + 1) q 0 = (q, 0) := by
+  simp [autoScale, h]
+
 /-- letter case of a literal never matters: `parse_filesize` lower-cases first -/
 theorem unit_case_insensitive (s t : Str) (h : lowerStr s = lowerStr t) : parseFilesize s = parseFilesize t := by
   unfold parseFilesize
